@@ -393,6 +393,7 @@ def enterNewRound (cfg : Config) (nb : Option Nat) (h r : Nat) (σ : State) : St
 def setProposal (cfg : Config) (src : Nat) (sigok : Bool) (h r pol id : Nat) (σ : State) : State :=
   if σ.proposal.isSome then σ
   else if h ≠ σ.height ∨ r ≠ σ.round then σ
+  else if pol ≠ 0 ∧ r ≤ pol then σ   -- ErrInvalidProposalPOLRound: 0 = none, else 1 ≤ pol < round
   else if !(sigok && src == cfg.proposer σ.height σ.round) then σ
   else
     { σ with proposal := some ⟨r, pol, id⟩,
